@@ -102,6 +102,9 @@ int main(void)
     static const char in[] = "[" IDX "]";
     struct attr_path *p = attr_path_parse(in, false);
     CHECK((p != NULL) == (FITS != 0), "C19: an index is accepted exactly if it is one the printer can print (0 .. LONG_MAX-1)");
+#if !FITS
+    return 0;      /* (printing a wrongly accepted 20-digit index through the model runs the solver out of memory: the verdict is the line above) */
+#endif
     if (p != NULL) {
 	char *str = attr_path_to_str(p, false);
 	CHECK(strlen(str) == attr_path_len(p, false), "C19: attr_path_len = length of the printed path");
